@@ -7,7 +7,7 @@ use proptest::strategy::Strategy;
 use serde::{Deserialize, Serialize};
 use serde_json::json;
 
-pub const RULE: &str = "case = (hash 0/1/2/3/16 MB, a list S of 0-5 earlier depth-limited searches of related or unrelated games, a main game with history, depth 1-8). In-process (both build profiles, 16 workers busy at once): (a) the main search run twice from identically prepared states (fresh, and fresh + S) must give identical traces - every reported depth, seldepth, score, PV, node count, hashfull, tbhits and the best move; (b) fresh + S followed by PersistentState::reset() must give the trace of a fresh state. On the shipped binary: (c) the session [setoption Hash h, S.. interleaved with stop (after a search has ended), go infinite / go movetime + stop, isready, earlier ucinewgame and repeated setoption, then ucinewgame, position p, go depth d] must print the same info/bestmove lines, with time and nps removed, as a fresh process given [setoption Hash h, position p, go depth d]. Thorough: the bench node total of two concurrently running processes must agree. Non-trivial = S non-empty with at least one search of depth >= 5; distinct by case.";
+pub const RULE: &str = "case = (hash 0/1/2/3/16 MB, a list S of 0-5 earlier depth-limited searches of related or unrelated games, a main game with history, depth 1-8). In-process (both build profiles, 16 workers busy at once): (a) the main search run twice from identically prepared states (fresh, and fresh + S) must give identical traces - every reported depth, seldepth, score, PV, node count, hashfull, tbhits and the best move; (b) fresh + S followed by PersistentState::reset() must give the trace of a fresh state. Long sessions of exactly 255/256/257/511/512 shallow searches followed by reset() must also equal a fresh state. On the shipped binary: (c) the session [setoption Hash h, S.. interleaved with stop (after a search has ended), go infinite / go movetime + stop, isready, earlier ucinewgame and repeated setoption, then ucinewgame, position p, go depth d] must print the same info/bestmove lines, with time and nps removed, as a fresh process given [setoption Hash h, position p, go depth d]. Thorough: the bench node total of two concurrently running processes must agree. Non-trivial = S non-empty with at least one search of depth >= 5; distinct by case.";
 
 #[derive(Serialize, Deserialize, Clone, Debug)]
 pub enum Case {
@@ -367,6 +367,40 @@ pub fn run(run: &mut Run) -> &'static str {
         },
         Case::Explicit { hash_mb, priors, main } => run_case(*hash_mb, priors, main, st),
     });
+    // long sessions: exactly 255 / 256 / 257 / 511 / 512 shallow searches (the table's search counter
+    // is 8 bits wide), then reset(): must still be a fresh engine
+    let cases = tier.pick(48, 600);
+    let strat = tape(16..80).prop_map(Case::Tape);
+    run.proptest_part("long_session_reset", RULE, strat, cases, move |c: &Case, st: &mut Stats| {
+        let Case::Tape(data) = c else { return Ok(()) };
+        let mut t = Tape::new(data);
+        let hash_mb = [1usize, 1, 2, 0][t.pick(4)];
+        let n = [255usize, 256, 256, 257, 511, 512, 300][t.pick(7)];
+        let Some((fen, moves, _, _)) = gen_game(&mut t, 1, 6) else {
+            st.discard();
+            return Ok(());
+        };
+        let main = SearchSpec { fen: fen.clone(), moves: moves.clone(), limit: Limit::Depth(3 + t.pick(3) as u8) };
+        st.eval();
+        let mut fresh = PersistentState::new(hash_mb);
+        let Some(want) = trace(&mut fresh, &main)? else { return Ok(()) };
+        let mut used = PersistentState::new(hash_mb);
+        let shallow = SearchSpec { fen, moves, limit: Limit::Depth(1 + t.pick(2) as u8) };
+        for _ in 0..n {
+            trace(&mut used, &shallow)?;
+        }
+        used.reset();
+        let got = trace(&mut used, &main)?.unwrap();
+        st.class(&format!("searches_before_reset:{n}"));
+        st.nontrivial(&format!("{hash_mb} {n} {main:?}"));
+        if st.want_nontrivial_sample() {
+            st.nontrivial_sample(json!({"hash_mb": hash_mb, "searches_before_reset": n, "main": main}));
+        }
+        if got != want {
+            return Err(Fail::new("reset_not_fresh:long_session", format!("after {n} searches and reset(), the search of {} moves {:?} differs from a fresh state: {}", main.fen, main.moves, first_difference(&got, &want))));
+        }
+        Ok(())
+    });
     if profile_name() == "checked" && engine_available() {
         let cases = tier.pick(160, 3_000);
         let strat = tape(16..160).prop_map(BinCase::Tape);
@@ -412,7 +446,7 @@ pub fn run(run: &mut Run) -> &'static str {
     }
     if let Ok(bin) = std::env::var("VERIF_FAST_BIN") {
         if profile_name() == "checked" && run.only_parts.is_empty() {
-            run_sub_process(run, &bin, &["in_process"]);
+            run_sub_process(run, &bin, &["in_process", "long_session_reset"]);
         }
     }
     RULE
